@@ -287,7 +287,7 @@ PROPS.update({
     },
     "C03": {
         "streams": ["c03"],
-        "driver": False,
+        "driver": True,
         "extractors": ["T1", "T3", "T3s", "T9"],
         "instances": n_layout_calls,
         "rule": "for each of the 30 types, messages assembled from the independent layout specification (spec/layouts.txt) under structural plans: "
